@@ -22,6 +22,7 @@ type PropSpec struct {
 	Cases    [2]int          // quick, thorough
 	Oracles  []string        // oracles evaluated on every step
 	Corr     string          // name of the correspondence (for no-failing-input-found reports)
+	Shipped  bool            // also start histories from every image shipped under test/images
 	TwoRuns  bool            // C12: run every history twice across a second boundary
 	Backends bool            // C14: run every history on both backends in lock-step
 }
@@ -40,22 +41,22 @@ var propSpecs = map[string]PropSpec{
 	"C01": {Profile: Profile{MaxCap: 8, MaxOps: 6, BigData: true, Backends: bothBackends, Rejects: 40, ObsReload: true, DetBias: 300},
 		Kinds: kinds("res", "hdr", "obj", "file", "rl", "shape"), Cases: [2]int{700, 12000}, Oracles: []string{"C01", "C08"},
 		Corr: "corr.C01.create_add_readback (model bytes and view vs library, every create/add)"},
-	"C02": {Profile: Profile{MaxCap: 6, MaxOps: 28, Backends: []string{"buf"}, Rejects: 220, DetBias: 350, FailReaders: true},
+	"C02": {Profile: Profile{MaxCap: 6, MaxOps: 28, Backends: []string{"buf"}, Rejects: 220, DetBias: 350, FailReaders: true, Foreign: 250},
 		Kinds: kinds("res", "hdr", "obj", "shape"), Cases: [2]int{600, 10000}, Oracles: []string{"C02"},
 		Corr: "corr.C02.history_view (accept/reject and full view after every step)"},
-	"C03": {Profile: Profile{MaxCap: 6, MaxOps: 24, BigData: true, Backends: bothBackends, Rejects: 80, DetBias: 500, FailReaders: true},
+	"C03": {Profile: Profile{MaxCap: 6, MaxOps: 24, BigData: true, Backends: bothBackends, Rejects: 80, DetBias: 500, FailReaders: true, Foreign: 150},
 		Kinds: kinds("file", "obj", "hdr", "shape"), Cases: [2]int{500, 8000}, Oracles: []string{"C03"},
 		Corr: "corr.C03.raw_bytes (whole file, byte for byte, after every step)"},
-	"C08": {Profile: Profile{MaxCap: 6, MaxOps: 24, Backends: bothBackends, Rejects: 200, ObsReload: true, DetBias: 350, FailReaders: true},
+	"C08": {Profile: Profile{MaxCap: 6, MaxOps: 24, Backends: bothBackends, Rejects: 200, ObsReload: true, DetBias: 350, FailReaders: true, Foreign: 150},
 		Kinds: kinds("rl", "hdr", "obj", "shape"), Cases: [2]int{500, 8000}, Oracles: []string{"C08"},
 		Corr: "corr.C08.handle_vs_reload (view incl. integrity streams, handle and reload, every step)"},
-	"C11": {Profile: Profile{MaxCap: 10, MaxOps: 10, BigData: true, Backends: bothBackends, Rejects: 40, ObsReload: true, DetBias: 300},
-		Kinds: kinds("file", "rl", "hdr", "obj", "shape"), Cases: [2]int{400, 8000}, Oracles: []string{"C11"},
+	"C11": {Profile: Profile{MaxCap: 10, MaxOps: 10, BigData: true, Backends: bothBackends, Rejects: 40, ObsReload: true, DetBias: 300, Foreign: 450, BadMagic: 300},
+		Kinds: kinds("file", "rl", "hdr", "obj", "res", "shape"), Cases: [2]int{400, 8000}, Oracles: []string{"C11"}, Shipped: true,
 		Corr: "corr.C11.layout (Lean encoder = library writer, byte for byte; Lean decoder = library reader)"},
 	"C12": {Profile: Profile{MaxCap: 6, MaxOps: 14, Backends: bothBackends, Rejects: 100, DetBias: 800},
 		Kinds: kinds("file", "hdr", "obj", "shape"), Cases: [2]int{250, 4000}, TwoRuns: true,
 		Corr: "corr.C12.bytes (model bytes with explicit clock parameter = library bytes)"},
-	"C13": {Profile: Profile{MaxCap: 6, MaxOps: 12, Queries: 14, Backends: []string{"buf"}, Rejects: 60, DetBias: 900},
+	"C13": {Profile: Profile{MaxCap: 6, MaxOps: 12, Queries: 14, Backends: []string{"buf"}, Rejects: 60, DetBias: 900, Foreign: 150},
 		Kinds: kinds("q", "shape"), Cases: [2]int{400, 8000}, Oracles: []string{"C13"},
 		Corr: "corr.C13.queries (GetDescriptors/GetDescriptor results for every selector tuple)"},
 	"C14": {Profile: Profile{MaxCap: 6, MaxOps: 20, BigData: true, Backends: []string{"buf"}, Rejects: 120, DetBias: 1000, FailReaders: true},
@@ -121,7 +122,8 @@ func relevantMismatch(c *Case, model []string, kindsOK map[string]bool) (*Mismat
 }
 
 // runHistory generates and executes one history on the real library, evaluating oracles.
-func runHistory(dir string, seed uint64, spec PropSpec, forceBackend string) (*Case, []*Violation, map[string]int) {
+func runHistory(dir string, seed uint64, spec PropSpec, shipped string) (*Case, []*Violation, map[string]int) {
+	forceBackend := ""
 	r := NewRNG(seed)
 	g := &Gen{r: r, p: spec.Profile, stats: map[string]int{}}
 	if forceBackend != "" {
@@ -178,10 +180,40 @@ func runHistory(dir string, seed uint64, spec PropSpec, forceBackend string) (*C
 		return obs
 	}
 	obsOp := func() *Op { return &Op{Kind: "obs", Reload: spec.Profile.ObsReload, Inv: true} }
-	create := g.createOp()
-	obs := emit(create)
-	if len(obs) == 0 || obs[0] != "res ok" {
-		return c, vs, g.stats
+	if shipped != "" {
+		lo := emit(&Op{Kind: "load", Backend: pick(r, g.p.Backends), Path: shipped})
+		g.count("shipped-image")
+		if len(lo) == 0 || lo[0] != "res ok" {
+			vs = append(vs, &Violation{Prop: "C11", Key: "C11:refused-shipped-image", What: "shipped image " + shipped + " was refused", Op: 0})
+			return c, vs, g.stats
+		}
+	} else if r.Intn(1000) < spec.Profile.Foreign {
+		img := g.genForeign()
+		if r.Intn(1000) < spec.Profile.BadMagic {
+			g.badMagicVersion(img)
+		}
+		emit(&Op{Kind: "mkimg", Img: img})
+		lo := emit(&Op{Kind: "load", Backend: pick(r, g.p.Backends), Foreign: true})
+		if img.BadMagicVersion {
+			if len(lo) > 0 && lo[0] == "res ok" {
+				vs = append(vs, &Violation{Prop: "C11", Key: "C11:accepted-bad-magic-version",
+					What: fmt.Sprintf("image with magic %q version %q was loaded instead of refused", img.Magic, img.Version), Op: 1})
+			}
+			return c, vs, g.stats
+		}
+		if len(lo) == 0 || lo[0] != "res ok" {
+			if img.WellFormed {
+				vs = append(vs, &Violation{Prop: "C11", Key: "C11:refused-valid-foreign-image",
+					What: "a well-formed image written by the independent encoder was refused", Op: 1})
+			}
+			return c, vs, g.stats
+		}
+	} else {
+		create := g.createOp()
+		obs := emit(create)
+		if len(obs) == 0 || obs[0] != "res ok" {
+			return c, vs, g.stats
+		}
 	}
 	emit(obsOp())
 	n := 1 + r.Intn(spec.Profile.MaxOps)
@@ -254,6 +286,13 @@ func loadKnown() map[string]string {
 
 func verifDir() string { return envOr("VERIF_DIR", "/verif") }
 
+// shippedImages lists the images of earlier releases under $REPO/test/images.
+var shippedImages = func() []string {
+	m, _ := filepath.Glob(filepath.Join(envOr("REPO", "/repo"), "test", "images", "*.sif"))
+	sort.Strings(m)
+	return m
+}()
+
 // histCampaign runs the campaign for prop.
 func histCampaign(prop, tier string, seed uint64, scratch string) *Result {
 	spec := propSpecs[prop]
@@ -280,7 +319,11 @@ func histCampaign(prop, tier string, seed uint64, scratch string) *Result {
 		dir := filepath.Join(scratch, fmt.Sprintf("c%d", i))
 		_ = os.MkdirAll(dir, 0o755)
 		defer os.RemoveAll(dir)
-		c, vs, stats := runHistory(dir, cs, spec, "")
+		shipped := ""
+		if spec.Shipped && i < 2*len(shippedImages) {
+			shipped = shippedImages[i%len(shippedImages)]
+		}
+		c, vs, stats := runHistory(dir, cs, spec, shipped)
 		model, err := runDriver(c.Proto)
 		mu.Lock()
 		defer mu.Unlock()
@@ -382,9 +425,16 @@ func histCampaign(prop, tier string, seed uint64, scratch string) *Result {
 }
 
 // usesWallClock reports whether an op's outcome may legitimately depend on the wall clock or RNG.
-func dependsOnClock(ops []*Op) []bool {
+func dependsOnClock(c *Case) []bool {
+	ops := c.Ops
 	dep := make([]bool, len(ops))
 	det := false
+	okOp := make([]bool, len(ops))
+	for j, l := range c.Impl {
+		if strings.HasPrefix(l, "res ok") {
+			okOp[c.OpOf[j]] = true
+		}
+	}
 	for i, op := range ops {
 		switch op.Kind {
 		case "create":
@@ -415,7 +465,9 @@ func dependsOnClock(ops []*Op) []bool {
 			if op.T.Kind == "dflt" && !det {
 				dep[i] = true
 			}
-			if op.T.Kind == "at" {
+			// an explicit time makes the image non-deterministic only if the call was accepted:
+			// a rejected call must leave the image (and its determinism) as it was
+			if op.T.Kind == "at" && okOp[i] {
 				det = false
 			}
 		}
@@ -427,7 +479,7 @@ func dependsOnClock(ops []*Op) []bool {
 // if no step may depend on the clock, the bytes are identical; deterministic images carry the nil
 // ID and zero times.
 func secondRunC12(dir string, c *Case) *Violation {
-	dep := dependsOnClock(c.Ops)
+	dep := dependsOnClock(c)
 	anyDep := false
 	for _, d := range dep {
 		anyDep = anyDep || d
@@ -473,7 +525,16 @@ func secondRunC12(dir string, c *Case) *Violation {
 	// zero fields: an image created deterministically and only modified with default or
 	// deterministic options has nil ID and zero times everywhere
 	allDet := len(c.Ops) > 0
-	for _, op := range c.Ops {
+	okOp := make([]bool, len(c.Ops))
+	for j, l := range c.Impl {
+		if strings.HasPrefix(l, "res ok") {
+			okOp[c.OpOf[j]] = true
+		}
+	}
+	for oi, op := range c.Ops {
+		if !okOp[oi] && op.Kind != "create" {
+			continue // a rejected call must not affect determinism
+		}
 		switch op.Kind {
 		case "create":
 			d := false
